@@ -322,6 +322,23 @@ func init() {
 			js = append(js, syncJobs("c07", "ZZ_C07_Sync", []seqCfg{{"bs_max1.s2", 0, 0, 1, 1}, {"bs_max2.s2", 0, 0, 1, 2}}, 2)...)
 		}
 		js = append(js, policyJobs("c07", tier)...)
+		// "Expiration only if the deadline had passed", at the level of the timer wheel: one level's sweep from an arbitrary
+		// placement-consistent state (C13's sweep lemma; the label of interest here is c13.sweep.fires_only_expired)
+		levels := []int{0, 1}
+		if tier == "thorough" {
+			levels = []int{0, 1, 2, 3, 4}
+		}
+		for _, L := range levels {
+			md := 0
+			if tier == "quick" {
+				md = 3
+			}
+			j := mk(sprintf("c07.wheel_sweep.level%d.maxdelta%d", L, md), expPkg, "ZZ_C13_Sweep", map[string]int{"level": L, "maxdelta": md, "canary": 0},
+				func(b *Bounds) { b.Unwind = 70; b.MaxPaths = 500000; b.MaxWallS = 1500 })
+			j.Labels = []string{"c13.sweep.fires_only_expired"}
+			j.Prefer = "bits"
+			js = append(js, j)
+		}
 		c := syncJobs("c07", "ZZ_C07_Sync", []seqCfg{{"canary", 0, 0, 1, 1}}, 1, "canary", 1)[0]
 		c.Canary = "c07.canary"
 		return append(js, c)
@@ -622,18 +639,23 @@ func init() {
 	registry["C14"] = func(tier string) []*Job {
 		var js []*Job
 		pre := 2
-		type pc struct{ writers, cleaner, pending, preempt int }
-		pcs := []pc{{1, 0, 0, 2}, {1, 1, 0, 2}, {2, 0, 0, 2}, {1, 0, 1, 2}}
+		type pc struct{ writers, cleaner, pending, preempt, full int }
+		pcs := []pc{{1, 0, 0, 2, 0}, {1, 1, 0, 2, 0}, {2, 0, 0, 2, 0}, {1, 0, 1, 2, 0}, {1, 0, 1, 2, 1}, {1, 0, 0, 2, 1}}
 		if tier == "thorough" {
-			pcs = []pc{{1, 0, 0, 3}, {1, 1, 0, 3}, {2, 0, 0, 3}, {1, 0, 1, 3}, {2, 1, 0, 2}, {2, 0, 1, 2}, {3, 0, 0, 2}}
+			pcs = []pc{{1, 0, 0, 3, 0}, {1, 1, 0, 3, 0}, {2, 0, 0, 3, 0}, {1, 0, 1, 3, 0}, {2, 1, 0, 2, 0}, {2, 0, 1, 2, 0}, {3, 0, 0, 2, 0},
+				{1, 0, 1, 3, 1}, {1, 0, 0, 3, 1}, {2, 0, 1, 2, 1}, {1, 1, 0, 2, 1}}
 		}
 		_ = pre
 		for _, x := range pcs {
-			js = append(js, mk(sprintf("c14.protocol.w%d.cleaner%d.pending%d.pre%d", x.writers, x.cleaner, x.pending, x.preempt), rootPkg, "ZZ_C14_Protocol",
-				map[string]int{"writers": x.writers, "cleaner": x.cleaner, "pending": x.pending, "canary": 0},
-				func(b *Bounds) { b.Unwind = 140; b.Preempt = x.preempt; b.Race = true; b.MaxPaths = 5000000; b.MaxWallS = 2400 }))
+			name := sprintf("c14.protocol.w%d.cleaner%d.pending%d.pre%d", x.writers, x.cleaner, x.pending, x.preempt)
+			if x.full == 1 {
+				name = sprintf("c14.protocol.fullbuffer.w%d.cleaner%d.pending%d.pre%d", x.writers, x.cleaner, x.pending, x.preempt)
+			}
+			js = append(js, mk(name, rootPkg, "ZZ_C14_Protocol",
+				map[string]int{"writers": x.writers, "cleaner": x.cleaner, "pending": x.pending, "canary": 0, "full": x.full},
+				func(b *Bounds) { b.Unwind = 140; b.Preempt = x.preempt; b.Race = true; b.MaxPaths = 5000000; b.MaxWallS = 2400; b.MaxYields = 110 }))
 		}
-		c := mk("c14.protocol.canary", rootPkg, "ZZ_C14_Protocol", map[string]int{"writers": 1, "cleaner": 0, "pending": 0, "canary": 1},
+		c := mk("c14.protocol.canary", rootPkg, "ZZ_C14_Protocol", map[string]int{"writers": 1, "cleaner": 0, "pending": 0, "canary": 1, "full": 0},
 			func(b *Bounds) { b.Unwind = 140; b.Preempt = 1; b.Race = true })
 		c.Canary = "c14.canary"
 		js = append(js, c)
@@ -681,7 +703,7 @@ func init() {
 		if tier == "thorough" {
 			pre = 3
 		}
-		for _, mode := range []int{0, 1} {
+		for _, mode := range []int{0, 1, 2} {
 			js = append(js, mk(sprintf("c09.mode%d.pre%d", mode, pre), rootPkg, "ZZ_C09_LoadVsWrite", map[string]int{"mode": mode, "canary": 0},
 				func(b *Bounds) { b.Unwind = 60; b.Preempt = pre; b.Race = true; b.MaxPaths = 6000000; b.MaxWallS = 2400 }))
 		}
@@ -694,17 +716,18 @@ func init() {
 func init() {
 	registry["C02"] = func(tier string) []*Job {
 		var js []*Job
-		type pc struct{ threads, per, samekey, preempt int }
-		pcs := []pc{{2, 1, 1, 2}, {2, 1, 0, 1}}
+		type pc struct{ threads, per, samekey, preempt, cfg int }
+		pcs := []pc{{2, 1, 1, 2, 0}, {2, 1, 0, 1, 0}, {2, 1, 1, 1, 1}, {2, 1, 0, 1, 2}}
 		if tier == "thorough" {
-			pcs = []pc{{2, 1, 1, 3}, {2, 1, 0, 2}, {2, 2, 1, 1}, {3, 1, 1, 1}}
+			pcs = []pc{{2, 1, 1, 3, 0}, {2, 1, 0, 2, 0}, {2, 2, 1, 1, 0}, {3, 1, 1, 1, 0}, {2, 1, 1, 2, 1}, {2, 1, 0, 2, 2}}
 		}
+		cfgNames := []string{"plain", "expired_unswept", "max1_inline_maintenance"}
 		for _, x := range pcs {
-			js = append(js, mk(sprintf("c02.t%d.ops%d.samekey%d.pre%d", x.threads, x.per, x.samekey, x.preempt), rootPkg, "ZZ_C02_Linearizable",
-				map[string]int{"threads": x.threads, "ops_per_thread": x.per, "samekey": x.samekey, "canary": 0},
+			js = append(js, mk(sprintf("c02.%s.t%d.ops%d.samekey%d.pre%d", cfgNames[x.cfg], x.threads, x.per, x.samekey, x.preempt), rootPkg, "ZZ_C02_Linearizable",
+				map[string]int{"threads": x.threads, "ops_per_thread": x.per, "samekey": x.samekey, "canary": 0, "cfg": x.cfg},
 				func(b *Bounds) { b.Unwind = 60; b.Preempt = x.preempt; b.Race = true; b.MaxPaths = 8000000; b.MaxWallS = 3000 }))
 		}
-		c := mk("c02.canary", rootPkg, "ZZ_C02_Linearizable", map[string]int{"threads": 2, "ops_per_thread": 1, "samekey": 1, "canary": 1},
+		c := mk("c02.canary", rootPkg, "ZZ_C02_Linearizable", map[string]int{"threads": 2, "ops_per_thread": 1, "samekey": 1, "canary": 1, "cfg": 0},
 			func(b *Bounds) { b.Unwind = 60; b.Preempt = 0; b.Race = true })
 		c.Canary = "c02.canary"
 		return append(js, c)
@@ -772,7 +795,7 @@ func init() {
 				js = append(js, mk(sprintf("%s.sync.%s", prop, c.name), rootPkg, fn, p, func(b *Bounds) { b.Unwind = 70; b.MaxPaths = 800000; b.MaxWallS = 1800 }))
 			}
 			if tier == "thorough" {
-				for _, c := range []seqCfg{{"bs_max1.s2", 0, 0, 1, 1}, {"bs_max2.s2", 0, 0, 1, 2}} {
+				for _, c := range []seqCfg{{"bs_max1.s2", 0, 0, 1, 1}, {"bs_max2.s2", 0, 0, 1, 2}, {"bw_w3.s2", 0, 0, 2, 3}} {
 					p := with(cfgParams(c.exp, c.ref, c.bound, c.max, 0, 0), "steps", 2)
 					js = append(js, mk(sprintf("%s.sync.%s", prop, c.name), rootPkg, fn, p, func(b *Bounds) { b.Unwind = 70; b.MaxPaths = 2000000; b.MaxWallS = 2400 }))
 				}
@@ -813,6 +836,18 @@ func init() {
 			p := with(cfgParams(c.exp, c.ref, c.bound, c.max, 1, 0), "symtime", 1, "steps", 3, "nkeys", 2, "prefixset", 2, "opset", 0, "firstop", 0, "lastkeys", 1, "midset", mid)
 			js = append(js, mk("c05.pending."+c.name, rootPkg, "ZZ_C05_Pending", p, func(b *Bounds) { b.Unwind = 12; b.MaxPaths = 800000; b.MaxWallS = 1800 }))
 		}
+		// expiring caches with writes pending (concrete clock offsets around the deadlines: the final CleanUp sweeps the
+		// wheel): timer-wheel membership is audited at quiescence
+		ecfgs := []seqCfg{{"be_writing", 2, 0, 0, 0}}
+		wsteps := 3
+		if tier == "thorough" {
+			ecfgs = append(ecfgs, seqCfg{"bse_accessing_max10", 3, 0, 1, 10}, seqCfg{"be_custom", 4, 0, 0, 0}, seqCfg{"bew_writing_w100", 2, 0, 2, 100})
+			wsteps = 4
+		}
+		for _, c := range ecfgs {
+			p := with(cfgParams(c.exp, c.ref, c.bound, c.max, 1, 0), "steps", wsteps)
+			js = append(js, mk("c05.wheel_pending."+c.name, rootPkg, "ZZ_C05_WheelPending", p, func(b *Bounds) { b.Unwind = 70; b.MaxPaths = 800000; b.MaxWallS = 1800 }))
+		}
 		return js
 	}
 }
@@ -821,11 +856,12 @@ func init() {
 func policyJobs(prop, tier string) []*Job {
 	var js []*Job
 	type pc struct{ nodes, max, sym int }
-	// quick: two nodes, only in C05's check (45 s); thorough: two and three nodes, symbolic sketch, in all three
+	// quick: two nodes (45 s); thorough: two and three nodes, symbolic sketch; in all three checks (a seeded change that
+	// evicted zero-weight entries was invisible to C04/C07's quick tier while the step ran under C05 only)
 	var pcs []pc
 	if tier == "thorough" {
 		pcs = []pc{{2, 10, 0}, {3, 10, 0}, {2, 3, 1}}
-	} else if prop == "c05" {
+	} else {
 		pcs = []pc{{2, 10, 0}}
 	}
 	for _, x := range pcs {
